@@ -1969,7 +1969,7 @@ def mnemo_from_att(prefix, name, args, asm_format):
     elif name in att_mnemo_table['suffix_none']:
         if name[:4] in ['fsub', 'fdiv']:
             return prefix, att_bug_fsub_fdiv(name, args, asm_format)
-        elif name in ['fldcw', 'fnstcw']:
+        elif name in ['fldcw', 'fnstcw', 'fnstsw']:
             mnemo_from_att_set_size(x86_afs.u16, args)
         return prefix, name
     # Suffix that indicates operands sizes
